@@ -56,6 +56,7 @@ def rules(ctx):
     c203(ctx)
     c203_departures(ctx)
     c203_relief(ctx)
+    c202_queued(ctx)
     c204(ctx)
     c205(ctx)
     c206(ctx)
@@ -449,6 +450,42 @@ def c205(ctx):
         for pt in slots[l]:
             ctx.must_pass(R, f, "emit_compaction(mandatory)", m_emits, goals=P.return_points(f), starts=P.after(f, pt),
                           avoid_edges=avoid_edges)
+
+
+def c202_queued(ctx):
+    R = "C20.2"
+    # a writer holds a place in the store's wait list from link() until it has published: whoever is queued behind it -- the flush thread
+    # links itself at the tail and waits to become head before it can finish a rollover -- cannot pass.  So between link() and the hand-over
+    # a writer sleeps on nothing but the list itself; waiting there for the flush thread (for `imm` to clear, for a rollover to finish)
+    # closes a cycle: the writer waits for the flush thread, the flush thread for the writer.
+    KVS = "lsmtk::kvs::KeyValueStore::"
+    f = ctx.fn(R, KVS + "write")
+    if not f:
+        return
+    links = P.call_points(f, r"sync42::wait_list::WaitList::link$")
+    ctx.floor(R, "write: wait-list link", len(links), 1)
+    WAIT = r"std::sync::(poison::)?(condvar::)?Condvar::(wait|wait_while|wait_timeout|wait_timeout_while)$"
+    bad = []
+    for pt in P.call_points(f, WAIT):
+        if any(P.reach(f, P.after(f, l_), [pt]) is not None for l_ in links):
+            bad.append((f, pt))
+    # helpers the writer calls while queued (it hands them the state guard)
+    for b, t in f.calls():
+        pt = P.term_pt(f, b.idx)
+        if not any(P.reach(f, P.after(f, l_), [pt]) is not None for l_ in links):
+            continue
+        for k_ in ctx.prog.targets(t):
+            g = ctx.prog.fns.get(k_)
+            if g is None or g.crate != "lsmtk" or not g.skey.startswith("lsmtk::kvs::"):
+                continue
+            for q in P.call_points(g, WAIT):
+                bad.append((g, q))
+    if not bad:
+        ctx.ok(R, f, "a queued writer sleeps only on the wait list")
+    for g, pt in bad:
+        ctx.check(R, g, "no-sleep-while-queued", False, "",
+                  "%s waits on a condition variable while the writer holds a place in the wait list: the flush thread queues behind that place and must "
+                  "become head before it can finish the rollover the writer is waiting for -- neither ever wakes, and every later writer queues behind them" % g.skey, pt=pt)
 
 
 def c204(ctx):
